@@ -49,13 +49,19 @@ SCALE_N = {'quick': 4, 'thorough': 60}     # per scenario
 SCALE_ALL = ['deep-consumer-generation', 'deep-generation',
              'many-aggregates', 'many-classes', 'many-consumers',
              'many-providers-one-consumer', 'many-traits', 'wide-tree']
+# the same past 1000 rows (bound-parameter limits, slices of 999/1000):
+# expensive (30-60 s each), so one run per scenario in the quick tier
+HUGE = ['wide-tree', 'many-consumers', 'many-aggregates']
+HUGE_N = {'quick': 1, 'thorough': 5}
 SCALE_RULE = (' Plus "scale" histories through the same oracle: one request '
               'touching 101-300 rows of one kind (consumers in one POST '
               '/allocations, traits / aggregates / classes of one provider, '
               'providers of one consumer), one provider or consumer '
               'collecting 101-300 successful writes (generations past 256), '
               'one tree of 101-300 providers re-parented; a quarter of them '
-              'served by two worker processes.')
+              'served by two worker processes. The scenarios with '
+              'consumers, aggregates and trees are also run at 1001 rows '
+              '(quick: once each).')
 SCALE_FOR = {
     'C01': ['many-consumers', 'many-providers-one-consumer', 'many-classes',
             'deep-consumer-generation'],
@@ -74,7 +80,11 @@ SCALE_FOR = {
 def _seq_plan(prop, text, extra_assumptions=()):
     def plan(tier):
         return {
-            'runs': [('seq', {'variant': prop} if tier == 'quick' else
+            'runs': [('scale', {'scenarios': [nm], 'sizes': [1001]},
+                      HUGE_N[tier])
+                     for nm in (SCALE_FOR[prop] or SCALE_ALL)
+                     if nm in HUGE] + [
+                     ('seq', {'variant': prop} if tier == 'quick' else
                       {'variant': prop, 'n_ops': [25, 60, 120]},
                       SEQ_N[tier]),
                      ] + [('scale', {'scenarios': [nm]}, SCALE_N[tier])
@@ -163,7 +173,8 @@ def _conc_plan(prop, foci, text, big=False):
     return plan
 
 
-PLANS['C05'] = _conc_plan('C05', ['provider', 'mixed', 'multi', 'reshape'],
+PLANS['C05'] = _conc_plan('C05', ['provider', 'mixed', 'multi', 'reshape',
+                                  'move'],
                           'Oracle: provider compare-and-swap specification '
                           'linearised by commit order from the commit log; '
                           'serial-permutation replay of the successes.')
@@ -271,7 +282,8 @@ def _c19(tier):
 def _c02(tier):
     q = tier == 'quick'
     return {
-        'runs': [('cand_claim', {}, 800 if q else 9000)],
+        'runs': [('cand_claim', {'big': 1003}, 1 if q else 6),
+                 ('cand_claim', {}, 800 if q else 9000)],
         'level': 'exploration',
         'rule': 'a seeded set-up history (12-32 requests: nested and sharing '
         'providers, inventories with reserved/ratio/unit constraints, prior '
@@ -284,7 +296,10 @@ def _c02(tier):
         'entry (first 25) is sent unchanged as PUT /allocations of a fresh '
         'consumer from a snapshot of the same state. distinct_nontrivial '
         'counts DISTINCT stored states in which at least one query was '
-        'evaluated; candidates returned / claims are in reach_probes.',
+        'evaluated; candidates returned / claims are in reach_probes. '
+        'One state per quick run (six per thorough run) is a deployment of '
+        '1003 one-provider trees with inventory and traits, so that one '
+        'answer carries more than a thousand candidates and summaries.',
         'assumptions': COMMON_ASSUMPTIONS + [
             'no independent notion of WHICH candidates should exist is used '
             '(that is C03, not applicable to this family)'],
@@ -294,7 +309,8 @@ def _c02(tier):
 def _c20(tier):
     q = tier == 'quick'
     return {
-        'runs': [('cand_limit', {}, 320 if q else 5000)],
+        'runs': [('cand_limit', {'big': 1003}, 1 if q else 4),
+                 ('cand_limit', {}, 320 if q else 5000)],
         'level': 'exploration',
         'rule': 'states and queries as for C02; for each (state, query) the '
         'unlimited result M with randomisation off, then every limit 1..|M|+1 '
